@@ -232,7 +232,7 @@ Proof.
     simpl in WF. simpl.
     destruct (enum_inner_agree ms v WF) as [(x & T & Hx)|(T & e & C)]; rewrite T.
     + unfold enum_lookup. rewrite Hx.
-      destruct (find (fun m => py_eqb x (snd m)) ms) as [[mn mv]|]; unfold guard, guard_c, raw_unit; [exact I|].
+      destruct (find (fun m => lit_match x (snd m)) ms) as [[mn mv]|]; unfold guard, guard_c, raw_unit; [exact I|].
       rewrite ?Sek1, ?Sek2; exact I.
     + rewrite C. exact I.
   - (* TClass *)
